@@ -250,6 +250,21 @@ def apply_step(ctx, db, step, alive):
         else:
             db.delete([db[f["id"]] for f in victims], make_backup=False)
         return [f for f in alive if f["ftype"] != t], "delete all %r (%s)" % (t, form)
+    if step[0] == "failed_update":
+        # an update that raises part-way on this FeatureDB: a new feature, then a line whose ID is already stored, under
+        # merge_strategy='error'.  Whether the new row is visible afterwards is not prescribed (it is on a ':memory:'
+        # database, whose connection the importer shares) - the content is read back by iteration, and the counts and
+        # lists asked for afterwards must be those of that content
+        nf, dupid = step[1], step[2]
+        p2 = dbside.write_lines(os.path.join(ctx.scratch, "c11u.gff3"), lines_of([nf, dict(nf, id=dupid)]))
+        try:
+            with warnings.catch_warnings():
+                warnings.simplefilter("ignore")
+                db.update(p2, make_backup=False, merge_strategy="error")
+        except Exception:
+            pass
+        present = set(f.id for f in db.all_features())
+        return [f for f in alive + [nf] if f["id"] in present], "an update that failed part-way"
     nf = step[1]
     p2 = dbside.write_lines(os.path.join(ctx.scratch, "c11u.gff3"), lines_of([nf]))
     with warnings.catch_warnings():
@@ -377,6 +392,29 @@ def run(ctx):
                 exp.append(("KEYS", ids, cols, reverse, rows)); tags.append(("query", repr(inp)))
             if len(res.samples) < 3 and len(ids) > 2 and cols:
                 res.sample({k: v for k, v in inp.items() if k != "lines"} | {"returned": ids})
+    # a featuretype collection of more than a thousand entries (the stored types far apart in it) with order_by: still one
+    # sorted result
+    rl = ctx.rng("c11", "long featuretype collections")
+    for li in range(3 if not ctx.thorough else 20):
+        feats = rand_set(rl, rl.randrange(8, 20))
+        lines = lines_of(feats)
+        path = dbside.write_lines(os.path.join(ctx.scratch, "c11l.gff3"), lines)
+        db, rep = dbside.py_create(path, dbside.Cfg())
+        if db is None:
+            continue
+        rows = {x["id"]: x for x in dbside.rows_of(db)}
+        filler = ["absent%d" % j for j in range(rl.choice([1100, 2100, 3100]))]
+        present = sorted(set(f["ftype"] for f in feats))
+        rl.shuffle(present)
+        # the stored types alternately near the beginning and near the end of the collection
+        ftl = present[0::2] + filler + present[1::2]
+        for cols in (["start"], ["end"], ["seqid", "start"], ["length"], []):
+            q = {"method": rl.choice(["all_features", "features_of_type"]), "featuretype": ftl,
+                 "featuretype_is_tuple": rl.random() < 0.5, "strand": None, "cols": cols, "reverse": rl.random() < 0.3,
+                 "form": "tuple"}
+            res.evaluations += 1
+            res.count("query_featuretype_collection_over_1000")
+            check_query(mk_case("query", lines, feats, query=q, no_shrink=True), db, feats, rows, res)
     # the distinct lists and counts follow the content through a history on ONE FeatureDB object ----------------------
     for hi in range(15 if not ctx.thorough else 150):
         feats = rand_set(r, r.randrange(4, 15))
@@ -399,6 +437,9 @@ def run(ctx):
                 step = ["update", {"id": "new%d" % len(steps), "seqid": r.choice(["chrNew", "chr1"]), "source": "a",
                                    "ftype": r.choice(["novel", "gene"]), "start": "5", "end": "9", "score": ".",
                                    "strand": "+", "frame": ".", "extra": [], "note": "a"}]
+                if k > 0.8:
+                    step = ["failed_update", dict(step[1], id="half%d" % len(steps)), r.choice(alive)["id"]]
+                    res.count("history_step_failed_update")
             alive, desc = apply_step(ctx, db, step, alive)
             steps.append(step)
             check_lists(mk_case("history", lines, feats, history=list(steps)), db, alive, "after " + desc, res)
